@@ -13,6 +13,12 @@ CLAIMS = {
          "io.ReadFull and binary.BigEndian contracts are assumed; extension constructors registered by foreign code are assumed side-effect free; the allocator's page-size post is assumed here (proved under C18 when claimed).", "10 C08"),
  "C20": ("proof", "No-panic and bounded-allocation obligations of every reply-decoding site of the client (all single-request operations, readChunkAt/writeChunkAt and the four background worker closures) discharged for every reply type and every reply byte string, under the channel invariant 'err == nil ==> len(data) >= 4' of result channels, which is itself proved at the send in clientConn.recv / sendPacket.",
          "Goroutine interference is not modelled; context.Context.Err() != nil after Done() and the io contracts are assumed. 'Client still usable afterwards' is covered only as far as each function returns an error value.", "10 C20"),
+ "C09": ("proof", "Ghost counter fsWrites over an assumed (trusted) classification of the os / *os.File API: proved that one iteration of the worker loop of a read-only Server performs no mutating call (loop invariant readOnly ==> fsWrites unchanged), that the gate lets exactly the harmless requests through (OPEN harmless iff no WRITE/APPEND/CREAT/TRUNC flag for all 2^32 flag words; EXTENDED harmless iff unknown name or statvfs, through the real method sets for the notReadOnly marker), and that handlePacket / every respond method performs no write for a harmless request.",
+         "The mutating/non-mutating classification of os.* and file methods is assumed. The denial status code (permission-denied) is part of the error-mapping obligations (C10) and not re-proved here. Found and fixed: OPEN READ|CREAT / READ|TRUNC and hardlink@openssh.com on a read-only server.", "10 C09"),
+ "C14": ("proof", "In the dispatcher goroutine (packetManager.workerChan$1) proved with ghost flags over the real control flow: a CLOSE is registered and handed to the command worker only after working.Wait() returned in the same iteration; READ/WRITE are registered (working.Add) before they are handed to the read/write pool; nothing but READ/WRITE goes to the pool and no READ/WRITE to the command worker.",
+         "sync.WaitGroup semantics (Wait returns only at counter zero) and channel FIFO are assumed; that handlers call readyPacket only after the backing ReadAt/WriteAt returned is program order inside handlePacket / file* (checked by the C02 exactly-once obligations, not restated here).", "10 C14"),
+ "C19": ("proof", "recvVersion: a nil error implies the first packet was a VERSION packet with version == 3 (all 2^32 versions, any type byte), decoding is total; SetSFTPExtensions: on error the configured list header and every element are unchanged (arbitrary-index formulation), on success the length matches, and the list under construction never aliases the live list; lookup returns an entry with the requested name; the extended-request switch leaves SpecificPacket nil exactly for unknown names (which the read-only gate treats as harmless and the handlers answer OP_UNSUPPORTED), and decodes known ones into a packet with the same id.",
+         "Not proved: element-wise order of the configured list on success (quantified copy-on-growth of append is not decided by the installed solvers); 'advertised implies served' is covered through the switch/response contracts of C02/C07.", "10 C19"),
 }
 
 def main():
